@@ -11,7 +11,12 @@ for d in neutral/*/; do
   id=$(basename $d); prop=${id%-*}
   [ -f $d/patch.diff ] || continue
   git -C /repo apply /verif/$d/patch.diff || { echo "| $id | patch does not apply | |" >> $out; continue; }
-  ${NEUTRAL_ENV:-} ./check $prop > /tmp/neutral_$id.log 2>&1; rc=$?
+  # a directory may name the properties to check in a file `props` (default: the property in its name)
+  props=$prop; [ -f $d/props ] && props=$(cat $d/props)
+  rc=0; : > /tmp/neutral_$id.log
+  for pr in $props; do
+    ${NEUTRAL_ENV:-} ./check $pr >> /tmp/neutral_$id.log 2>&1; r=$?; [ $r -gt $rc ] && rc=$r
+  done
   git -C /repo checkout -- . ; git -C /repo clean -qfd crates
   obls=$(grep -E "VIOLATED|INCONCLUSIVE " /tmp/neutral_$id.log | awk '{print $3}' | sort -u | tr '\n' ' ')
   echo "| $id | $rc | $obls |" >> $out
